@@ -332,11 +332,45 @@ def invoke_contract(ex, st, c, fs, bound, node, label=None):
     return res
 
 
+def restrict(ex, st, a):
+    """the array restricted to its own index range (a fixed default outside): two arrays that agree on every
+    in-range cell have extensionally equal restrictions -- a function that reads only in-range cells cannot tell them apart"""
+    if a.view is not None:
+        a = ex.copy_array(st, a)
+    term = st.heap[a.oid]
+    ks = [z3.Int(f"k!rs{i}") for i in range(a.ndim)]
+    rng = z3.And(*[z3.And(k >= 0, k < zint(n)) for k, n in zip(ks, a.shape)])
+    if a.dtype in ("f8", "f4"):
+        dflt = ex.fm.const(0)
+    elif a.dtype == "b1":
+        dflt = z3.BoolVal(False)
+    else:
+        dflt = z3.IntVal(0)
+    cache = ex.ctx.__dict__.setdefault("restrict_cache", {})
+    key = (term.get_id(), tuple(zint(n).get_id() for n in a.shape))
+    if key in cache:
+        cst, ax, keep = cache[key]
+    else:
+        # a fresh array constant with a quantified definition (pattern: its own cells): array extensionality
+        # + this definition is how two restrictions are shown equal
+        cst = fresh("rs", term.sort())
+        ax = z3.ForAll(ks, sel(cst, *ks) == z3.If(rng, sel(term, *ks), dflt), patterns=[sel(cst, *ks)])
+        cache[key] = (cst, ax, term)
+    if not any(h.eq(ax) for h in st.pc[-60:]):
+        st.assume(ax, tag="def:restrict")
+    return cst
+
+
 def add_valfn(ex, st, c, bound, res):
     args = []
     for p in c.params:
         a = bound[p]
         if isinstance(a, Arr):
+            if ex.ctx.options.get("restrict_valfn"):
+                args.append(restrict(ex, st, a))
+                for s in a.shape:
+                    args.append(zint(s))
+                continue
             if a.view is not None:
                 return
             args.append(st.heap[a.oid])
@@ -425,6 +459,16 @@ def np_sum(ex, st, node, a, *rest, **kw):
     from .spec import SPECFNS, specfn_decl
     a = flat1(ex, st, a)
     n = a.shape[0]
+    if ex.ctx.options.get("restrict_valfn"):
+        # relational mode: the sum is a deterministic function of the in-range cells
+        rs = restrict(ex, st, a)
+        ret = z3.IntSort() if a.dtype not in ("f8", "f4") else ex.fm.sort
+        key = ("np.sum", a.dtype)
+        f = ex.ctx.valfn.get(key)
+        if f is None:
+            f = z3.Function(f"np!sum!{a.dtype}", rs.sort(), z3.IntSort(), ret)
+            ex.ctx.valfn[key] = f
+        return f(rs, zint(n))
     if a.dtype == "b1":
         f = specfn_decl(ex, SPECFNS["cnt_true"])
         return f(st.heap[a.oid], z3.IntVal(0), zint(n))
